@@ -92,6 +92,13 @@ def abbreviate(trace):
 OPS_REMOVABLE = False
 
 
+def shuffled_keys(table, rng):
+    """The same bond table with its keys inserted in another order (a dict built from an edge list)."""
+    keys = list(table)
+    rng.shuffle(keys)
+    return {k: table[k] for k in keys}
+
+
 def bonds_table(n, edges, pos, factor=None):
     info = {i: [] for i in range(n)}
     adj = gen.adjacency(n, edges)
@@ -135,9 +142,13 @@ def exec_enum_trees(trace, ctx):
         # the result must follow the table handed over now, not one seen earlier
         factor2 = {(min(i, j), max(i, j)): rng.uniform(0.7, 1.3) for i, j in edges}
         table2 = bonds_table(n, edges, pos, factor2)
+        if idx % 2:
+            table, table2 = shuffled_keys(table, rng), shuffled_keys(table2, rng)
         for moved in range(n):
             for tb in ((table, table2) if (idx + moved) % 3 == 0 else (table,)):
                 d = np.array(gen.unit_vec(rng)) * rng.choice([0.01, 0.1, 1.0, 10.0])
+                if (idx + moved) % 11 == 4:
+                    d = np.zeros(3)        # "move" by nothing: the table must still be imposed
                 before = pos.copy()
                 arr = pos.copy()
                 try:
@@ -172,6 +183,8 @@ def exec_random_graph(trace, ctx):
         factor = {(min(i, j), max(i, j)): rng.uniform(0.7, 1.3) for i, j in edges}
         ctx.probe("bond_table_disagrees_with_geometry")
     table = bonds_table(n, edges, pos, factor)
+    if trace["seed"] % 2:
+        table = shuffled_keys(table, rng)
     real_displ = T.find_atom_random_displ
     seen = {}
 
@@ -245,7 +258,13 @@ def exec_random_graph(trace, ctx):
             elif rng.random() < 0.3:
                 # same connectivity, another bond table (the species in another conformation)
                 factor = {(min(i, j), max(i, j)): rng.uniform(0.7, 1.3) for i, j in edges}
-                table = bonds_table(n, edges, pos, factor)
+                new_table = bonds_table(n, edges, pos, factor)
+                if rng.random() < 0.5:
+                    for k_ in list(table):          # the SAME dict object, edited in place
+                        table[k_] = new_table[k_]
+                    ctx.probe("bond_table_edited_in_place")
+                else:
+                    table = new_table
                 ctx.probe("bond_table_changed_between_moves")
     for raw, snap_ in kept:
         if not np.array_equal(np.array(raw, dtype=float), snap_):
@@ -288,9 +307,14 @@ def exec_chi2(trace, ctx):
         fixed = fixed_in.copy()
         fixed_in = fixed_in.astype(np.float32)         # exactly representable: same values, other dtype
         ctx.probe("float32_fixed_array")
+    restr_arg = [tuple(r) for r in restr] if restr else (None if rng.random() < 0.5 else [])
+    if restr and trace["seed"] % 4 == 2:
+        # the restraint list as a numpy array of the narrowest integer type that holds the indices
+        dt = rng.choice([np.int64, np.int32, np.int16, np.uint8 if max(nf, nm) < 256 else np.int32, np.int8 if max(nf, nm) < 128 else np.int16])
+        restr_arg = np.array(restr, dtype=dt)
+        ctx.probe("restraints_as_small_int_array")
     try:
-        calc = Chi2Calculator(fixed_in, mob0.copy(),
-                              [tuple(r) for r in restr] if restr else (None if rng.random() < 0.5 else []))
+        calc = Chi2Calculator(fixed_in, mob0.copy(), restr_arg)
     except Exception as e:
         ctx.violate("C08", "chi2-construct-raised", f"Chi2Calculator({nf}x{nm}, {len(restr)} restraints) raised {type(e).__name__}: {e}")
         return
@@ -300,9 +324,17 @@ def exec_chi2(trace, ctx):
     reuse_buffer = trace["seed"] % 3 == 1
     if reuse_buffer:
         ctx.probe("mobile_buffer_modified_in_place")
-    for rep in range(10):
+    walk = trace["seed"] % 5 == 4          # a chain of configurations that differ by small steps (a trajectory), 30 long
+    if walk:
+        ctx.probe("small_step_walk")
+    prev_mob = mob0.copy()
+    drift = np.array(gen.unit_vec(rng)) * 0.04
+    for rep in range(120 if walk else 10):
         if rep == 0:
             mob = mob0.copy()
+        elif walk:
+            mob = prev_mob + np.array([[rng.uniform(-1, 1) * 0.02 for _ in range(3)] for _ in range(nm)])
+            mob[: max(1, nm // 3)] += drift      # a few atoms drift steadily (small steps, large total), the others jitter
         elif reuse_buffer and rep % 2 == 1:
             mob = work.copy()
             mob[rng.randrange(nm)] += np.array(gen.rvec(rng, sp * 0.3))      # a single-atom move of the previous argument
@@ -311,6 +343,7 @@ def exec_chi2(trace, ctx):
             if rng.random() < 0.3:       # some mobile atoms exactly on top of fixed atoms (distance 0 is legal)
                 for _ in range(rng.randint(1, 3)):
                     mob[rng.randrange(nm)] = fixed[rng.randrange(nf)]
+        prev_mob = mob.copy()
         if reuse_buffer:
             work[:] = mob
             arg = work
@@ -341,6 +374,8 @@ def exec_chi2(trace, ctx):
             ctx.violate("C08", "chi2-value", f"measure = {val!r}, reference definition gives {want!r} (k={k}, path '{path}', "
                                              f"{nf}x{nm} atoms, configuration #{rep})", key=path)
             return
+        if walk and rep > 3:
+            continue
         # invariance under a common rigid motion of both sets
         R = gen.random_rotation(rng)
         t = np.array(gen.rvec(rng, 5.0))
@@ -439,6 +474,15 @@ def exec_rotations(trace, ctx):
                 Mf = np.array(rotation_matrix(iax.astype(float), theta), dtype=float)
                 Mt = np.array(rotation_matrix(tuple(float(x) for x in iax), theta), dtype=float)
                 M32 = np.array(rotation_matrix(iax.astype(np.float32), theta), dtype=float)
+                # unsigned and narrow integer types, large integer components (norm up to 1e6)
+                uax = np.abs(iax).astype(np.uint8)
+                Mu = np.array(rotation_matrix(uax, theta), dtype=float)
+                Muf = np.array(rotation_matrix(uax.astype(float), theta), dtype=float)
+                big = (iax * rng.choice([300, 70000, 500000])).astype(np.int32)
+                Mb32 = np.array(rotation_matrix(big, theta), dtype=float)
+                if max(np.max(np.abs(Mu - Muf)), np.max(np.abs(Mb32 - Mf))) > tol:
+                    ctx.violate("C17", "rotation-argument-form", f"the matrix for axis {iax.tolist()} depends on the integer type / "
+                                                                 f"magnitude of the array it is given in (uint8 {uax.tolist()}, int32 {big.tolist()})")
                 if max(np.max(np.abs(Mi - Mf)), np.max(np.abs(Mt - Mf)), np.max(np.abs(M32 - Mf))) > tol:
                     ctx.violate("C17", "rotation-argument-form", f"the matrix for axis {iax.tolist()} depends on whether the axis "
                                                                  f"is given as int array / tuple / float32 / float64")
